@@ -83,11 +83,13 @@ def write_files(d, files):
             fh.write(text)
 
 
-def compile_capy(workdir, files, main="main.capy", mod_dir=None, cpu_s=20, extra=(), cli=None, wrap=(), mem_gb=6):
+def compile_capy(workdir, files, main="main.capy", mod_dir=None, cpu_s=20, extra=(), cli=None, wrap=(), mem_gb=6, keep_out=False):
     """files: {relative path: text}. The CLI runs with cwd=workdir (fresh), always with --mod-dir.
     wrap: command prefix (e.g. valgrind ...) put in front of the CLI."""
     write_files(workdir, files)
-    shutil.rmtree(os.path.join(workdir, "out"), ignore_errors=True)
+    if not keep_out:
+        # keep_out=True: build on top of whatever an earlier build left in out/ (C21: "regardless of previous compilations")
+        shutil.rmtree(os.path.join(workdir, "out"), ignore_errors=True)
     cmd = list(wrap) + [cli or C.CLI, "build", main, "--mod-dir", mod_dir or C.REPO, "--no-exec", "--color", "never"] + list(extra)
     r = C.run_proc(cmd, cwd=workdir, cpu_s=cpu_s, mem_gb=mem_gb)
     c = Compile()
